@@ -735,6 +735,7 @@ fn main() {
     // single-caller histories all run on sim thread 0 of one runtime: no step cap across them
     let rt = Runtime::install(Config { linger: false, step_cap: u64::MAX, ..Config::default() });
     simrt::install_panic_hook(rt, args.has("verbose"));
+    simrt::install_crash_reporter();
     let _ = ModuleGraph::new();
 
     let mut violations: Vec<Value> = vec![];
